@@ -11,7 +11,7 @@ EXTENDS Escape, TLC, Json
 CONSTANTS N, Emit, Mode     \* Mode: "general" | "ref" (strings that start with "&#": signs, leading zeros, radix prefix, missing ';')
 Symbols == { <<60>>, <<62>>, <<38>>, <<39>>, <<34>>, <<35>>, <<120>>, <<59>>, <<49>>, <<48>>,
              <<97>>, <<108>>, <<116>>, <<32>>, <<195, 169>> }
-RefSymbols == { <<120>>, <<48>>, <<49>>, <<57>>, <<43>>, <<45>>, <<59>>, <<97>>, <<70>> }     \* x 0 1 9 + - ; a F
+RefSymbols == { <<120>>, <<88>>, <<48>>, <<49>>, <<57>>, <<43>>, <<45>>, <<59>>, <<97>>, <<70>> }     \* x X 0 1 9 + - ; a F
 Levels == {"full", "partial", "minimal", "item"}
 
 VARIABLES s, n
